@@ -85,6 +85,9 @@ def chopper_cases(draw, with_pulses=False):
         "int_freq": draw(st.sampled_from([False, False, True])),
         # beam position / phase as whole degrees in integer variables (seeded/C10-s3)
         "int_angles": draw(st.sampled_from([False, False, True])),
+        # a slit spanning top-dead-centre written with a negative begin, (-20, 22) for (340, 382) deg
+        # (seeded/C10-s6); the same arc of the disk
+        "neg_notation": draw(st.sampled_from([False, False, False, True])),
     }
     if case["int_freq"]:
         case["fp"] = float(max(1, round(fp)))
@@ -110,6 +113,8 @@ def build(case, slits=None):
     fp_st = _stored(case["fp"], F_UNITS[case["fp_unit"]])
     au = A_UNITS[case["slit_unit"]]
     slits = case["slits"] if slits is None else slits
+    if case.get("neg_notation"):
+        slits = [[b - disk.TWO_PI, e - disk.TWO_PI] if e > disk.TWO_PI else [b, e] for b, e in slits]
     b_st = [_stored(b, au) for b, _ in slits]
     e_st = [_stored(e, au) for _, e in slits]
     edge_dtype = "float64"
@@ -165,7 +170,7 @@ def labels_of(case):
     ]
     tdc = any(e > disk.TWO_PI for _, e in case["slits"])
     if tdc:
-        labs.append("tdc-spanning-slit")
+        labs.append("tdc-spanning-slit" + ("/negative-begin" if case.get("neg_notation") else ""))
     if "npulses" in case:
         labs.append(f"npulses:{case['npulses']}")
     nt = (len(case["slits"]) >= 2 or tdc or (case["num"], case["den"]) != (1, 1)
@@ -405,7 +410,9 @@ def touching_cases(draw):
     accepted - every reported interval must still be a *maximal* opening of the disk."""
     case = draw(chopper_cases())
     n = draw(st.integers(2, 4))
-    cuts = sorted(draw(st.lists(st.integers(1, 350), min_size=2 * n - 1, max_size=2 * n - 1, unique=True)))
+    cuts = sorted(draw(st.lists(st.integers(0, 350), min_size=2 * n - 1, max_size=2 * n - 1, unique=True)))
+    if draw(st.booleans()):
+        cuts[0] = 0          # first slit begins exactly at top-dead-centre (last one may end at 360 deg)
     kind = draw(st.sampled_from(["inside", "across-tdc"]))
     slits = []
     if kind == "inside":
